@@ -6,9 +6,11 @@ From Verif.C01_SerixJson Require Import Model Ind ProofsLeaf ProofsC01 ProofsC02
 Import ListNotations.
 
 (* For EVERY schema of the modelled fragment (bool; int8..uint64; string; []byte; [n]byte; *big.Int; time.Time;
-   structs by value or pointer with required / optional / omitempty fields and object codes; slices; arrays; maps;
+   structs by value or pointer with required / optional / omitempty / inlined fields, embedded structs and object
+   codes; slices; arrays; maps;
    interfaces with registered alternatives - nested arbitrarily) and EVERY value of that type.
-   Guards: [wf_schema] (distinct field keys, none equal to "type" next to an object code, uint32 codes, map
+   Guards: [wf_schema] (distinct field keys - those of inlined and embedded structs count for the enclosing struct -,
+   none equal to "type" next to an object code, inlined fields are structs, uint32 codes, map
    keys of string/int64/uint64/time/[n]byte type, 'optional' only on nil-able fields, 'omitempty' not on maps,
    arrays and by-value structs (where the model's identification of nil and empty collections would blur
    reflect.IsZero), alternatives are value
@@ -59,7 +61,8 @@ Definition ex_schema : schema :=
      ("aI", FReq, SArr 2 (SNum I16));
      ("m", FReq, SMap SI64 (SSlice SString));
      ("if", FOptional, SIface [(7%N, ex_alt)]);
-     ("om", FOmit, SNum U8); ("os", FOmit, SSlice SString); ("ot", FOmit, STime); ("op", FOmit, SU256)]%string.
+     ("om", FOmit, SNum U8); ("os", FOmit, SSlice SString); ("ot", FOmit, STime); ("op", FOmit, SU256);
+     ("", FInline, SStruct false None [("ea", FReq, SNum I8); ("", FInline, SStruct true None [("eb", FReq, SBool)])])]%string.
 Definition ex_value : value :=
   VList [VInt (-128); VInt (-9223372036854775808); VInt 18446744073709551615; VStr "hi"; VBool true;
          VStr "ab"; VStr "xy"; VInt 255; VInt 5; VNil;
@@ -67,7 +70,8 @@ Definition ex_value : value :=
          VList [VInt 5; VInt (-6)];
          VMap [(VInt (-1), VList [VStr "a"]); (VInt 1, VList [])];
          VIface 7 (VList [VInt 65535]);
-         VInt 0; VList [VStr "z"]; VInt zero_time; VNil]%string.
+         VInt 0; VList [VStr "z"]; VInt zero_time; VNil;
+         VList [VInt 4; VPtr (VList [VBool true])]]%string.
 
 Example C01_json_roundtrip_nonvacuous :
   wf_schema ex_schema = true /\ has_type ex_schema ex_value = true /\
@@ -79,7 +83,7 @@ Example C01_json_roundtrip_nonvacuous :
               ("aI", JArr [JNum 5; JNum (-6)]);
               ("m", JObj [("-1", JArr [JStr "a"]); ("1", JArr [])]);
               ("if", JObj [("type", JNum 7); ("q", JNum 65535)]);
-              ("os", JArr [JStr "z"])]%string).
+              ("os", JArr [JStr "z"]); ("ea", JNum 4); ("eb", JBool true)]%string).
 Proof. vm_compute. repeat split. Qed.
 
 (* The pinned code did not round-trip arrays of non-byte elements (JSON analogue of D01a, repaired by 81cafca),
